@@ -34,3 +34,6 @@ void w_DOUBLES_EQUAL(double e, double a, double t) { DOUBLES_EQUAL(e, a, t); }
 void w_MEMCMP_EQUAL(const void* e, const void* a, size_t t) { MEMCMP_EQUAL(e, a, t); }
 void w_BITS_EQUAL(unsigned e, unsigned a, unsigned t) { BITS_EQUAL(e, a, t); }
 void w_ENUMS_EQUAL_INT(int e, int a) { ENUMS_EQUAL_INT(e, a); }
+void w_ENUMS_EQUAL_INT_TEXT(int e, int a) { ENUMS_EQUAL_INT_TEXT(e, a, "text"); }
+void w_ENUMS_EQUAL_TYPE(long e, long a) { ENUMS_EQUAL_TYPE(long, e, a); }
+void w_ENUMS_EQUAL_TYPE_TEXT(long e, long a) { ENUMS_EQUAL_TYPE_TEXT(long, e, a, "text"); }
